@@ -323,8 +323,8 @@ def run(ctx: Ctx, rep: Report) -> None:
                     val = val.value
                 if val is call:
                     passthrough = True
-        if passthrough and fn.parent is not None:
-            rep.ok("C07-R3", site, text, "pass-through closure: returns the received bytes unprocessed to its caller")
+        if passthrough and (fn.parent is not None or (fn.cls is not None and fn.name == "__call__" and not ctx.callers_of(fn))):
+            rep.ok("C07-R3", site, text, "pass-through closure / callable object: returns the received bytes unprocessed to its caller")
             continue
         if passthrough and fn != send:
             # a pass-through helper method (Client._transmit): the duty to validate moves to every caller
